@@ -69,6 +69,7 @@ def instants_for(zone: str, r, n_random: int):
 
 class C11(Prop):
     id = "C11"
+    tour_every = 5
     level = "exploration"
     technique = "real encoder/decoder driven under a virtual clock and switched host zone; zoneinfo oracle over all 1440 minutes per (zone, instant)"
     rule = ("case = (zone, virtual now); all 1440 HH:MM are encoded and decoded back under it, plus 64 arbitrary instants and 96 fixed instants (the same in every case, so each is decoded under many zones in one process) decoded, "
